@@ -1,7 +1,8 @@
 ----------------------------- MODULE TracePipe -----------------------------
 (* Trace specification for C14 (built / reconstitute events) and C15 (proc / built events from
-   independent processes). *)
+   independent processes; tokmap events: runs of CTTokenMapBuilder against TokenMap.tla). *)
 EXTENDS Pipeline, Json, IOUtils, FiniteSets
+TM == INSTANCE TokenMap
 Rec == ndJsonDeserialize(IOEnv.TRACE)
 VARIABLES l, ndev
 Prop == IF "PROP" \in DOMAIN IOEnv THEN IOEnv.PROP ELSE "C14"
@@ -21,6 +22,10 @@ Next ==
             /\ LET ds == IF ReconstituteStutters(e.digest) THEN {}
                          ELSE { <<"observation changed by serialise + reconstitute (" \o e.format \o ", u" \o ToString(e.width) \o ")", e.diff>> } IN
                Report(e.id, ds) /\ ndev' = ndev + Cardinality(ds)
+       [] e.ev = "tokmap" ->
+            \* one run of CTTokenMapBuilder: what it generated against TokenMap.tla
+            /\ LET ds == TM!TokMapDevs(e) IN Report(e.id, ds) /\ ndev' = ndev + Cardinality(ds)
+            /\ UNCHANGED pvars2
        [] OTHER -> UNCHANGED <<ndev, pvars2>>
 Spec == Init /\ [][Next]_<<l, ndev, pvars2>>
 Consumed == (l = Len(Rec) + 1) => PrintT(<<"DONE", Len(Rec), ndev>>)
